@@ -25,7 +25,7 @@ CfgOf(j) ==
     [ name |-> j.name, network |-> j.network, motd |-> j.motd,
       admin_info |-> j.admin_info, admin_info2 |-> j.admin_info2, admin_email |-> j.admin_email,
       password |-> j.password, max_joins |-> j.max_joins, max_connections |-> j.max_connections,
-      default_modes |-> ToSet(j.default_modes), tls |-> j.tls,
+      default_modes |-> ToSet(j.default_modes), tls |-> j.tls, dns |-> j.dns,
       operators |-> j.operators, users |-> j.users,
       channels |-> [k \in DOMAIN j.channels |->
           LET ch == j.channels[k] IN
